@@ -342,4 +342,125 @@ def Report.sameExcept (a : Attr) (r r' : Report τ) : Prop :=
    (a ≠ .incl → r'.incl = r.incl) ∧ (a ≠ .inplace → r'.inplace = r.inplace) ∧
    (a ≠ .dtype → r'.dtype = r.dtype))
 
+/-! ### The same plumbing over full C13 record states (driver stream `M`)
+
+`MComp` keeps, instead of the `RecCfg` summaries, one complete C13 machine state per internal
+`RecordTensor` (constraints, storage, pointer) and one `ShState` per batch-constrained
+`ShapedTensor`, and drives them with the C13 operations the mixins invoke (`rec.dt = v` =
+`Record.step (.setDt v)`, `rec.reconstrain(0, b)` = `Record.step (.recon 0 b)`, …).  The driver
+prints its sizes next to the summary machine's on every request. -/
+
+inductive CKind where
+  | syn | neu | red
+  | con (hasDelay : Bool)
+deriving DecidableEq, Repr
+
+structure MComp where
+  kind    : CKind
+  dt      : Rat
+  span    : Rat
+  batch   : Nat
+  incl    : Bool
+  inplace : Bool
+  dtype   : DType
+  recs    : List (Record.MState Rat)
+  shaped  : List Shaped.ShState
+
+open InfernoVerif.Record (ratOps) in
+/-- records of a synapse: `RecordTensor.create(dt, delay, zeros(batch, P), inclusive=True)`,
+`add_delayed`, `add_batched` (= `reconstrain(0, batch)`: raw dim 1). -/
+def mSynRecs (k : Nat) (dt delay : Rat) (batch P : Nat) : Except Err (List (Record.MState Rat)) :=
+  (List.replicate k ()).mapM fun _ => do
+    let r ← Record.construct ratOps dt delay true true false [] (.zeros [batch, P])
+    let (r1, o) := Record.step ratOps r (.recon 0 (some (batch : Int)))
+    match o with
+    | .unit => pure r1
+    | .err e => throw e
+    | .unsupported => throw .Other
+
+open InfernoVerif.Record (ratOps) in
+def MComp.newSyn (kind : CKind) (c : SynCfg Rat) (P : Nat) : Except Err MComp := do
+  if ratOps.pos c.dt = false || ratOps.nonneg c.delay = false || c.batch = 0 then throw .ValueError
+  let recs ← mSynRecs c.k c.dt c.delay c.batch P
+  pure ⟨kind, c.dt, c.delay, c.batch, true, c.inplace, c.dtype, recs, []⟩
+
+open InfernoVerif.Record (ratOps) in
+def MComp.newRed (c : RedCfg Rat) : Except Err MComp := do
+  if ratOps.pos c.dt = false || ratOps.nonneg c.duration = false then throw .ValueError
+  let r ← Record.construct ratOps c.dt c.duration c.incl true false [] .empty
+  pure ⟨.red, c.dt, c.duration, 0, c.incl, c.inplace, c.dtype, [r], []⟩
+
+def MComp.newNeu (c : NeuCfg Rat) (P : Nat) : Except Err MComp := do
+  if Record.ratOps.pos c.dt = false || c.batch = 0 then throw .ValueError
+  let sh ← (List.replicate c.m ()).mapM fun _ => do
+    let s ← Shaped.shConstruct [] true false (.tensor [c.batch, P] (List.replicate (c.batch * P) 0))
+    let (s1, o) := Shaped.shStep s (.recon 0 (some (c.batch : Int)))
+    match o with
+    | .unit => pure s1
+    | .err e => throw e
+    | .unsupported => throw .Other
+  pure ⟨.neu, c.dt, 0, c.batch, false, false, c.dtype, [], sh⟩
+
+/-- run one C13 operation on every record; any exception aborts the setter -/
+def stepRecs (recs : List (Record.MState Rat)) (op : Record.Op Rat) : Except Err (List (Record.MState Rat)) :=
+  recs.mapM fun r =>
+    match Record.step Record.ratOps r op with
+    | (r', .unit) => pure r'
+    | (_, .err e) => throw e
+    | (_, .unsupported) => throw .Other
+
+def stepShaped (sh : List Shaped.ShState) (op : Shaped.ShOp) : Except Err (List Shaped.ShState) :=
+  sh.mapM fun s =>
+    match Shaped.shStep s op with
+    | (s', .unit) => pure s'
+    | (_, .err e) => throw e
+    | (_, .unsupported) => throw .Other
+
+def MComp.isSynLike (m : MComp) : Bool :=
+  match m.kind with | .syn => true | .con _ => true | _ => false
+
+def MComp.step (m : MComp) : COp Rat → (P : Nat) → MComp × Out
+  | .setDt v, _ =>
+    if Record.ratOps.pos v = false then (m, .err .ValueError)
+    else if m.kind = .neu then ({ m with dt := v }, .unit)
+    else if v ≠ m.dt then
+      match stepRecs m.recs (.setDt v) with
+      | .ok recs => ({ m with dt := v, recs := recs }, .unit)
+      | .error e => (m, .err e)
+    else (m, .unit)
+  | .setDelay v, _ =>
+    if ! m.isSynLike then (m, .unsupported)
+    else if Record.ratOps.nonneg v = false then (m, .err .ValueError)
+    else if v ≠ m.span then
+      match stepRecs m.recs (.setDur v) with
+      | .ok recs => ({ m with span := v, recs := recs }, .unit)
+      | .error e => (m, .err e)
+    else (m, .unit)
+  | .setDuration v, _ =>
+    if m.kind ≠ .red then (m, .unsupported)
+    else if Record.ratOps.pos v = false then (m, .err .ValueError)
+    else if v ≠ m.span then
+      match stepRecs m.recs (.setDur v) with
+      | .ok recs => ({ m with span := v, recs := recs }, .unit)
+      | .error e => (m, .err e)
+    else (m, .unit)
+  | .setBatch v, _ =>
+    if m.kind = .red then (m, .unsupported)
+    else if v ≤ 0 then (m, .err .ValueError)
+    else if v.toNat ≠ m.batch then
+      match stepRecs m.recs (.recon 0 (some v)), stepShaped m.shaped (.recon 0 (some v)) with
+      | .ok recs, .ok sh => ({ m with batch := v.toNat, recs := recs, shaped := sh }, .unit)
+      | .error e, _ => (m, .err e)
+      | _, .error e => (m, .err e)
+    else (m, .unit)
+  | .setInplace b, _ => if m.kind = .neu then (m, .unsupported) else ({ m with inplace := b }, .unit)
+  | .setDtype d, _ => ({ m with dtype := d }, .unit)
+  | .setSynapse c, P =>
+    match m.kind with
+    | .con hd =>
+      match MComp.newSyn (.con hd) c P with
+      | .ok m' => (m', .unit)
+      | .error e => (m, .err e)
+    | _ => (m, .unsupported)
+
 end InfernoVerif.Config
